@@ -487,12 +487,17 @@ char *output_name(char *path, char *name) {
         fix_win32_filename(o);
     }
 
-    /* search for "../" and change to "xx" to stop directory traversal */
+    /* search for "../" (or a final "..") and change to "xx" to stop directory traversal */
     for (o = &out[dirlen]; *o; o++) {
-        if (o[0] == '.' && o[1] == '.' && (o[2] == '/' || o[2] == '\\')) {
+        if (o[0] == '.' && o[1] == '.' && (o[2] == '/' || o[2] == '\\' || o[2] == '\0')) {
             o[0] = o[1] = 'x';
-            o += 2;
+            o++;   /* continue at the separator (or stop at the terminator) */
         }
+    }
+
+    /* an absolute name must not leave the extraction (or current) directory */
+    for (o = &out[dirlen]; *o == '/' || *o == '\\'; o++) {
+        *o = '_';
     }
 
     if (!pipe_mode) {
